@@ -10,6 +10,7 @@ import itertools
 
 import lena.core
 import lena.flow
+import lena.math
 
 from ..kernel import RunResult, Log, summarize
 from ..seams.flow import (Tok, SimSource, ProbeCall, ProbeFC, ProbeFR, ProbeSrc,
@@ -40,11 +41,11 @@ ASSUMPTIONS = [
     "lena code",
     "copy_buf has no observable effect here because no branch mutates its input (C04 covers that)",
 ]
-FAULT_KINDS = ["LenaStopFill-from-probe", "LenaStopFill-from-Slice", "LenaStopFill-from-fill_into",
+FAULT_KINDS = ["branch-raises-other-lena-exception", "LenaStopFill-from-probe", "LenaStopFill-from-Slice", "LenaStopFill-from-fill_into",
                "empty-flow"]
 EXPECTED_PROBES = ["stop-in-last-slot-of-block", "two-branches-stop-in-same-block",
                    "source-branch-after-first-block", "empty-flow-all-kinds", "common-type-fill-compute",
-                   "common-type-fill-request", "common-type-call", "zip", "empty-split",
+                   "common-type-fill-request", "common-type-call", "zip", "zip-with-fields", "empty-split",
                    "fr-tuple-bufsize-none", "multi-block", "same-split-run-twice",
                    "accumulator-inside-explicit-sequence"]
 
@@ -79,6 +80,7 @@ def gen_branch(tape, name, kinds, allow_stop=True):
     b.results = 1
     b.form = "explicit"
     b.none_at = None
+    b.err_at = None
     if b.kind == "source":
         b.m = tape.draw(3, "src-m")
         b.npost = tape.draw(2, "src-post")
@@ -88,6 +90,9 @@ def gen_branch(tape, name, kinds, allow_stop=True):
         b.results = 1 + tape.draw(2, "results")
         if allow_stop and tape.chance(1, 3, "probe-stop"):
             b.stop_at = tape.draw(7, "stop-at", sweep=True)
+        elif allow_stop and tape.chance(1, 10, "probe-error"):
+            # a Lena exception that is not LenaStopFill: it is an error, not "this branch has enough"
+            b.err_at = tape.draw(7, "error-at", sweep=True)
         b.form = tape.choice(["tuple", "explicit", "bare"], "form")
         if b.form == "bare" and (b.pre or b.npost):
             b.form = "tuple"
@@ -130,6 +135,7 @@ def gen_scenario(tape):
         sc.branches = [gen_branch(tape, "b%d" % i, [(1, kind)], allow_stop=False)
                        for i in range(nb)]
     sc.bufsize = tape.choice([1000, None, 1, 2, 3, sc.n + 1], "bufsize")
+    sc.zip_fields = sc.mode.startswith("zip") and tape.chance(1, 3, "zip-fields")
     sc.second_run = None
     if sc.mode == "run" and tape.chance(1, 4, "second-run"):
         sc.second_run = tape.draw(9, "flowlen2")
@@ -193,9 +199,9 @@ def real_branch(b, log):
             else:
                 els.append(ProbeStopFillInto(log, nm, st[1]))
         if b.kind == "fc":
-            probe = ProbeFC(log, b.name + ".fc", stop_at=b.stop_at, results=b.results)
+            probe = ProbeFC(log, b.name + ".fc", stop_at=b.stop_at, results=b.results, err_at=getattr(b, "err_at", None))
         else:
-            probe = ProbeFR(log, b.name + ".fr", stop_at=b.stop_at, results=b.results)
+            probe = ProbeFR(log, b.name + ".fr", stop_at=b.stop_at, results=b.results, err_at=getattr(b, "err_at", None))
         els.append(probe)
         els += post_calls(b, log)
         if b.form == "bare":
@@ -250,9 +256,9 @@ class MBranch(object):
                 else:
                     self.pre.append(("stopfill", [0, st[1], nm]))
             if b.kind == "fc":
-                self.probe = ProbeFC(log, b.name + ".fc", stop_at=b.stop_at, results=b.results)
+                self.probe = ProbeFC(log, b.name + ".fc", stop_at=b.stop_at, results=b.results, err_at=getattr(b, "err_at", None))
             else:
-                self.probe = ProbeFR(log, b.name + ".fr", stop_at=b.stop_at, results=b.results)
+                self.probe = ProbeFR(log, b.name + ".fr", stop_at=b.stop_at, results=b.results, err_at=getattr(b, "err_at", None))
         else:
             self.stages = []
             for j, st in enumerate(b.stages):
@@ -448,12 +454,17 @@ def run_mode(sc, res):
     msrc = SimSource(mlog, "src", sc.n, lambda i: Tok(i))
     mbranches = [MBranch(b, mlog) for b in sc.branches]
     mlog.ev("built")
-    consume(ref_split_run(mbranches, msrc, sc.bufsize), mlog)
-    if sc.second_run is not None:
-        # the same Split object is run again on a new flow
-        mlog.ev("second-run")
-        consume(ref_split_run(mbranches, SimSource(mlog, "src2", sc.second_run,
-                                                   lambda i: Tok(100 + i)), sc.bufsize), mlog)
+    injected = any(getattr(b, "err_at", None) is not None for b in sc.branches)
+    try:
+        consume(ref_split_run(mbranches, msrc, sc.bufsize), mlog)
+        if sc.second_run is not None:
+            # the same Split object is run again on a new flow
+            mlog.ev("second-run")
+            consume(ref_split_run(mbranches, SimSource(mlog, "src2", sc.second_run,
+                                                       lambda i: Tok(100 + i)), sc.bufsize), mlog)
+    except lena.core.LenaValueError:
+        # the injected error of a branch: it ends the run of the reference scheduler too
+        mlog.ev("propagated", "LenaValueError")
     # real
     src = SimSource(log, "src", sc.n, lambda i: Tok(i))
     try:
@@ -467,11 +478,15 @@ def run_mode(sc, res):
             consume(split.run(SimSource(log, "src2", sc.second_run, lambda i: Tok(100 + i))), log)
     except Exception as e:  # noqa: BLE001
         from ..kernel import exception_origin, exception_site
-        if exception_origin(e) != "lena":
-            raise
-        res.viol("C03:Split.run:%s:unexpected-exception:%s@%s" % (
-            _mix(sc), type(e).__name__, exception_site(e)), repr(e)[:300])
-        return
+        if injected and isinstance(e, lena.core.LenaValueError) and "injected at fill" in str(e):
+            log.ev("propagated", "LenaValueError")
+            res.fault("branch-raises-other-lena-exception")
+        else:
+            if exception_origin(e) != "lena":
+                raise
+            res.viol("C03:Split.run:%s:unexpected-exception:%s@%s" % (
+                _mix(sc), type(e).__name__, exception_site(e)), repr(e)[:300])
+            return
     _probes(sc, res, mlog)
     compare(sc, res, log.events, mlog.events, "Split.run")
 
@@ -645,12 +660,31 @@ def zip_mode(sc, res):
         return mlog
     mlog = model(True)
     mlog_abandon = model(False)
+    fields = None
+    outs = []
     try:
-        z = lena.flow.Zip([real_branch(b, log) for b in sc.branches])
+        if getattr(sc, "zip_fields", False):
+            # results are namedtuples with the given field names; another Zip with the same
+            # (default) name and other fields exists in the same process
+            nb = len(sc.branches)
+            other = [lena.math.Sum() for _ in range(nb)] if kind == "fc" else \
+                [lena.core.FillRequest(lena.math.Sum(), bufsize=1, reset=True, buffer_input=True) for _ in range(nb)]
+            lena.flow.Zip(other, fields=["other%d" % i for i in range(nb)])
+            fields = ["f%d" % i for i in range(nb)]
+            z = lena.flow.Zip([real_branch(b, log) for b in sc.branches], fields=fields)
+            res.probe("zip-with-fields")
+        else:
+            z = lena.flow.Zip([real_branch(b, log) for b in sc.branches])
         log.ev("built")
         for v in vals:
             z.fill(v)
-        consume(z.compute() if kind == "fc" else z.request(), log)
+        gen = z.compute() if kind == "fc" else z.request()
+
+        def watched():
+            for x in gen:
+                outs.append(x)
+                yield x
+        consume(watched(), log)
     except Exception as e:  # noqa: BLE001
         from ..kernel import exception_origin
         if exception_origin(e) != "lena":
@@ -660,6 +694,15 @@ def zip_mode(sc, res):
     res.probe("zip")
     if len(sc.branches) >= 2 and sc.n:
         res.nontrivial = True
+    if fields is not None:
+        for x in outs:
+            data = x[0] if (isinstance(x, tuple) and len(x) == 2 and isinstance(x[1], dict)
+                            and not hasattr(x, "_fields")) else x
+            if list(getattr(data, "_fields", ())) != fields:
+                res.viol("C03:Zip:fields:wrong-field-names",
+                         "Zip(..., fields=%r) yielded a value with fields %r"
+                         % (fields, getattr(data, "_fields", None)))
+                return
     if log.events == mlog_abandon.events:
         return
     compare(sc, res, log.events, mlog.events, "Zip")
